@@ -600,8 +600,39 @@ pub fn parse_and_check_lossless(text: &str) -> Result<(u64, usize), LosslessFail
     Ok((nodes, ndiags))
 }
 
+/// Monitor self-test of C10: a tree must be rejected against any text it was not parsed from
+/// (one byte dropped, doubled, swapped; trivia changed), and accepted against its own text.
+pub fn c10_self_test() -> Vec<String> {
+    use cairo_lang_parser::utils::SimpleParserDatabase;
+    let text = "fn f(a: u8) -> u8 {\n    // note\n    a + 1 # $\n}\n";
+    let db = SimpleParserDatabase::default();
+    let (root, _) = db.parse_virtual_with_diagnostics(text);
+    let mut failed = vec![];
+    if check_lossless(&db, root, text).is_err() {
+        failed.push("own text rejected".to_string());
+    }
+    let variants: [(&str, String); 5] = [
+        ("byte dropped", text.replacen("a + 1", "a +1", 1)),
+        ("byte doubled", text.replacen("note", "notee", 1)),
+        ("bytes swapped", text.replacen("# $", "$ #", 1)),
+        ("token replaced, same length", text.replacen("a + 1", "a - 1", 1)),
+        ("suffix dropped", text[..text.len() - 2].to_string()),
+    ];
+    for (name, other) in variants {
+        if check_lossless(&db, root, &other).is_ok() {
+            failed.push(format!("accepted a different text ({name})"));
+        }
+    }
+    failed
+}
+
 pub fn c10_worker(ctx: &mut Ctx) {
     install_panic_hook();
+    let failed = c10_self_test();
+    ctx.count("selftest.foreign_texts_rejected", if ctx.shard == 0 { 5 - failed.iter().filter(|f| f.starts_with("accepted")).count() as u64 } else { 0 });
+    for f in failed {
+        ctx.harness_error(format!("C10 oracle self-test failed: {f}"));
+    }
     let mut corpus = TextCorpus::load();
     let total: u64 = ctx.tier.pick(24_000, 1_500_000);
     // Originals first.
